@@ -323,7 +323,9 @@ def run(R):
     maths_obligations(R, max(npts, 2))
     safe_division_obligations(R)
     safe_division_symbolic(R)
-    scens = ['freeT', 'fluid'] if R.tier == 'quick' else ['freeT', 'fluid', 'fluid_comp', 'onshell', 'noshift']
+    # generic data, and the special regimes in which a cache test can come out differently (inputs as components, the shift
+    # through one component only, no shift at all)
+    scens = ['freeT', 'fluid', 'shift_z', 'noshift', 'onshell_comp'] if R.tier == 'quick' else ['freeT', 'fluid', 'fluid_comp', 'onshell', 'onshell_comp', 'noshift', 'shift_x', 'shift_y', 'shift_z']
     for f in ALG_FUNCS:
         function_obligations(R, W, f, scens, npoints=npts)
     helper_obligations(R, W, scens[0], only=set(ALG_HELPERS), npoints=npts)
